@@ -487,9 +487,17 @@ class Framer(tasking.Tasker):
             console.profuse("    False, empty enters\n")
             return False
 
+        claimed = []  # original auxes claimed by frames earlier in enters
         for frame in enters:
             if not frame.checkEnter(exits=exits):
                 return False
+            for aux in frame.auxes:  # same original aux may not be entered under two frames
+                if aux.original:
+                    if aux in claimed:
+                        console.concise("    False. Aux '{0}' in use by more than one"
+                                        " frame in enters\n".format(aux.name))
+                        return False
+                    claimed.append(aux)
         console.profuse("    True all {0}\n".format(self.name))
         return True
 
